@@ -1,6 +1,7 @@
 """helpers shared by the property modules"""
 
 import copy
+import os
 
 from sim.canon import digest
 from sim.loop import SimDeadlock, SimStepCap
@@ -86,7 +87,7 @@ def fail(verdict, clause, detail, fingerprint=None):
         verdict["ok"] = False
         verdict["clause"] = clause
         verdict["detail"] = detail if isinstance(detail, str) else repr(detail)
-        verdict["detail"] = verdict["detail"][:2000]
+        verdict["detail"] = verdict["detail"][: int(os.environ.get("VERIF_DETAIL_CHARS", "2000"))]
         verdict["fingerprint"] = fingerprint or clause
     return verdict
 
